@@ -46,6 +46,9 @@ func checkC09(c *Ctx) {
 	a.namedConstants()
 	a.intDivision()
 	a.angleUnits()
+	c.Rule("C09.R9", "model evaluation with symbolic values: a +towgs84 list is classified as proj4js does (first three values not all zero: 3-parameter; seven values with the last four not all zero: 7-parameter, whatever the first three; otherwise no shift) and the rotations and the scale are converted from arc seconds and parts per million exactly once")
+	c09datumModel(c, a.js)
+	c.Floor("C09.R9", 6)
 	a.twoDHop()
 	c.exhaust = true
 	a.helmert()
